@@ -25,9 +25,15 @@ CHECKS = {
  "C07": dict(engine="A", technique="property-based differential testing: real LR parser vs real GLR parser on the same generated deterministic grammar (proptest, shrinking)",
    text="Bounded random exploration: for generated conflict-free grammars the LR parser (defaults) and the GLR parser (LALR_RN) built from the same text are run on generated valid and invalid inputs (ASCII and multi-byte, multi-line); acceptance, solution count, tree (productions, token kinds/texts/spans, node spans after stripping trailing empty children) and error positions must agree.",
    note="Trusted: scope decision uses the real raw table (cross-checked against an independent LR(1) construction in C04); no Layout rule (GLR trees carry no layout by design)."),
+ "C08": dict(engine="B", technique="property-based testing with a complete per-cell comparison: the real generated parser module compiled by rustc is queried for every (state, token) / (state, nonterminal) / state and compared with the real table dump; differential parsing arrays vs functions vs dump-driven runtime",
+   text="Bounded random exploration over grammars; per generated parser (both table layouts x LR/GLR) the comparison is complete over all states, tokens and defined gotos: a harness-emitted module next to the generated g.rs calls PARSER_DEFINITION.actions / goto / expected_token_kinds / longest_match / grammar_order and prints the answers, which must equal the rendering of the real table dump; 10..13 generated inputs are parsed by the generated parser (generated recognisers, enums, parser struct) and must give exactly the tree / error offset of the dump-driven parse, hence the same for both layouts.",
+   note="Trusted: rustc; syn to recover the generated enum variant lists; the dump hook; engine A's dump-driven runtime for the expected parse results; undefined gotos are not queried."),
  "C09": dict(engine="A", technique="property-based testing with a reference desugaring and exhaustive bounded language equivalence (Earley on both grammars over all strings up to length 5) plus structural comparison of productions and meta-data (proptest, shrinking)",
    text="Bounded random exploration: generated valid grammar texts using every implemented construct; the real grammar dump is compared with the harness's own model: start symbol, production lists of user rules symbol for symbol, inline-string resolution, assignment names, inherited meta-data (production's own datum wins), terminals; sugar is compared by language (helper nonterminal and whole grammar vs the documented expansion, exhaustive over all token strings up to length 4/5 for <= 4 terminals) and by helper count.",
    note="Trusted: reference desugaring (DESIGN.md appendix A.3); bounded equivalence is exhaustive only up to the length bound; one recorded finding (separator ignored in helper names) keyed on its structural class."),
+ "C10": dict(engine="B", technique="property-based round-trip testing of the real generated default builder compiled by rustc: string literals of the AST's Debug rendering vs content-token leaves of the generic tree of the same input",
+   text="Bounded random exploration: AST-shape-rich conflict-free generated grammars x {LR, GLR replay through the generated DefaultBuilder} x builder_loc_info, 8..11 derived sentences each; the real generated parser + actions parse each sentence and the sequence of string literals in the Debug rendering of the AST must equal the content tokens of the input in input order (from the dump-driven generic tree), and the number of None must equal the number of absent optionals.",
+   note="Trusted: rustc; content tokens cannot be confused with identifiers (digits / lower-case words); only the documented @vec patterns are generated; `?=` is bound only to content-free tokens because the documentation does not define it."),
  "C11": dict(engine="B", technique="property-based testing with rustc as the oracle: generated grammars x a pairwise covering array of generator settings, real generated parser + actions type-checked by `cargo check` in a scratch crate",
    text="Bounded random exploration: AST-shape-rich generated grammars x 3 configurations each from a pairwise covering array over algorithm / builder / table layout / loc-info / regex engine / lexer type; every case the real compiler accepts is written by the real Settings::process_grammar into one scratch crate that path-depends on /repo/rustemo and must type-check; rustc diagnostics are attributed to cases by file path.",
    note="Trusted: rustc; the scratch crate layout mirrors a user crate (sibling modules, a one-line g_lexer.rs for custom lexers); three recorded findings keyed on rustc code + file + structural class."),
